@@ -680,3 +680,29 @@ Proof.
   - unfold sec_frame. rewrite page_shift_val, N.shiftr_div_pow2. change (2 ^ 12) with 4096.
     assert (E: w64 (addr + two64 - off) = addr - off) by (unfold w64, two64 in *; lia). rewrite E. reflexivity.
 Qed.
+
+(** PageDirectoryTable.Activate swaps the roles of the two address spaces and touches no memory *)
+Theorem pdt_activate_spec s A T ownA own slot :
+  Inv2 s A T ownA own -> pdts s slot = T ->
+  let s' := pdt_activate slot s in
+  Inv2 s' T A own ownA /\ cr3 s' = frame_addr T /\ slog s' = frame_addr T :: slog s /\
+  (forall f i, ent s' f i = ent s f i) /\ orc s' = orc s /\ flog s' = flog s.
+Proof.
+  intros [WA WT Hcr Hdisj [G1 G2] HFA] Hslot s'.
+  destruct (wf_owned _ _ _ WT T [] (wf_root _ _ _ WT)) as (HbT & _).
+  assert (HT40: T < 2 ^ 40) by (eapply backed_lt40; [exact (wf_arena _ _ _ WT) | exact HbT]).
+  unfold s', pdt_activate. rewrite Hslot. cbn [cr3 slog orc flog set_slog set_cr3].
+  split; [|repeat split].
+  split.
+  - apply (WF_ent_eq s _ T own WT); reflexivity.
+  - apply (WF_ent_eq s _ A ownA WA); reflexivity.
+  - cbn [cr3 set_slog set_cr3].
+    rewrite frame_addr_small by (change (2 ^ 40) with 1099511627776 in HT40; change (2 ^ 52) with 4503599627370496; lia).
+    rewrite N.shiftr_shiftl_l by lia. replace (12 - 12) with 0 by lia. apply N.shiftl_0_r.
+  - intros f Hf. destruct (ownA f) as [p|] eqn:E; [|reflexivity].
+    exfalso. apply Hf. apply Hdisj. rewrite E. discriminate.
+  - split; [exact G1|]. intros f Hin Hz. destruct (G2 f Hin Hz) as (B1 & B2 & B3).
+    split; [exact B1|]. split; [exact (HFA f Hin Hz)|].
+    intros E. rewrite E, (wf_root _ _ _ WT) in B2. discriminate.
+  - intros f Hin Hz. destruct (G2 f Hin Hz) as (_ & B2 & _). exact B2.
+Qed.
